@@ -703,8 +703,11 @@ def oracle(inp, obs):
                     return f"{where}: iter_changes reports versioned {p1!r} that all_versioned_paths does not list"
                 r = rows[p1]
                 k = None if str(r[1]) == "missing" else str(r[1])
-                if fmt == "git" and k is None and c[6] is not None and str(c[6]) == "directory":
-                    continue          # git directories are implied by index paths, present on disk or not
+                if fmt == "git" and k != "directory" and c[6] is not None and str(c[6]) == "directory":
+                    # git directories are implied by the index paths below them, whatever is on disk at that
+                    # path: nothing, or (observable since fix 1cfde6e) an unversioned file that replaced the
+                    # directory.  An index entry itself is never reported as a directory unless it is one on disk.
+                    continue
                 if (None if c[6] is None else str(c[6])) != k:
                     return f"{where}: iter_changes kind {c[6]} of {p1!r} differs from the tree's {r[1]}"
         # (6) commit then clean / revert restores basis
